@@ -156,6 +156,7 @@ inductive Exc where
   | componentEndMissing
   | invalidCalendar
   | incompleteComponent
+  | assertionError      -- raised by an external piece (`Contentline.from_parts`: a raw line feed in a content line), wave 5
 deriving DecidableEq, Repr, Inhabited
 
 abbrev Py (α : Type) := Except Exc α
